@@ -224,6 +224,21 @@ Definition go_down (g : gconf) (i : Z) (st : state) : state :=
   | None => st
   end.
 
+(* AdjRib.Update: a route re-announced with the same attributes keeps the receive time of the one it replaces
+   (old.Equal(path) -> path.setTimestamp(old.GetTimestamp())); the time is read from the Loc-RIB entry of that source
+   (a rejected route has none, and its time is never compared) *)
+Definition ann_ts (st : state) (p : peer) (pfx : Z) (a : attrs) : Z :=
+  match aget pfx (p_adjin p) with
+  | Some (a0, _) =>
+      if attrs_eq_dec a0 a then
+        match find (fun x => same_src x (mkR (Some (p_conf p)) a 0)) (rib_get st pfx) with
+        | Some x => rp_ts x
+        | None => s_now st
+        end
+      else s_now st
+  | None => s_now st
+  end.
+
 Definition step (g : gconf) (st : state) (e : event) : state :=
   match e with
   | EUp i =>
@@ -240,7 +255,7 @@ Definition step (g : gconf) (st : state) (e : event) : state :=
           if p_up p then
             let rej := rejected g (p_conf p) a in
             let st1 := set_peer i (mkPeer (p_conf p) (p_up p) (aset pfx (a, rej) (p_adjin p)) (p_view p)) st in
-            rib_apply g pfx rej (mkR (Some (p_conf p)) a (s_now st)) st1
+            rib_apply g pfx rej (mkR (Some (p_conf p)) a (ann_ts st p pfx a)) st1
           else st
       | None => st
       end
